@@ -914,6 +914,17 @@ static void iauth_read(evutil_socket_t fd, short events, void *iauth_in_v)
             /* id is always -1 with current ircu. */
             parse_info_request(argc, argv);
             break;
+#ifdef IAUTHD_C_VERIF
+        case '!':
+            /* "<id> ! timeout": run this request's pending timeout
+             * exactly as libevent would for the one-shot timer.
+             */
+            if (req && req->timeout && evtimer_pending(req->timeout, NULL)) {
+                evtimer_del(req->timeout);
+                iauth_timeout(-1, EV_TIMEOUT, req);
+            }
+            break;
+#endif
         }
 
         /* We are responsible for freeing the line. */
